@@ -17,6 +17,10 @@ ASSUMPTIONS = [
     "passed; host ACKs are occasionally withheld (a host that received a corrupted packet does that)",
     "a response must *start* within 18 cycles (bit times) after the end of the soliciting packet; tx_ready is any "
     "pattern whose gaps are bounded (<= 63 cycles)",
+    "rx_active stays high 0..6 cycles (bit times on this bus) after the last byte of a host packet, chosen per packet: a "
+    "PHY may negate RXActive as soon as it sees SE0 (the in-tree GatewarePHY: 0..1 cycles, measured) or only when the "
+    "EOP is complete (stuffed bit + dribble bit + 2 x SE0 + J + one register; ULPI 1.1 FS 'RX end delay' of 17-18 "
+    "60-MHz clocks is the same 3.6 bit times). Longer tails are not generated",
     "'comes entirely from a single transmitter' is checked as: every data packet equals the packet the addressed "
     "endpoint must send according to the independent device model (the CRC alone cannot show mixing because it is "
     "computed over the bytes actually sent)",
@@ -39,7 +43,7 @@ class Solicited(Sub):
             "implemented request (multi-packet descriptors, absent descriptors, must-STALL requests), bulk IN/OUT on "
             "endpoints 1/2/4 (both directions of 4), the signal endpoint, PINGs, SOFs, traffic to absent endpoint "
             "directions, interleaved between control stages; tx_ready patterns from always-ready to one ready cycle in "
-            "64; a monitor on the UTMI transmit side checks that every maximal tx_valid burst is a 1-byte handshake "
+            "64; rx_active held 0..6 cycles after each host packet's last byte; a monitor on the UTMI transmit side checks that every maximal tx_valid burst is a 1-byte handshake "
             "with a valid PID or a data packet with a correct CRC16, starts within the response window after a "
             "token/data packet addressed to the device, never overlaps rx_active, and equals the packet the "
             "independent device model expects from the addressed endpoint; non-trivial = the device sent control data, "
@@ -61,6 +65,9 @@ class Solicited(Sub):
                         st.sampled_from([dict(k="xin", ep=e, n=n, ack=1) for e in (1, 4) for n in (1, 8, 9)]), wrong_side)
         fields = G.env_fields()
         fields["txr"] = tx_ready_patterns
+        # cycles rx_active stays high after the last byte of each host packet (None = the BFM's historic 0..2)
+        tails = st.lists(weighted([(0, 2), (1, 3), (2, 2), (3, 2), (4, 2), (5, 2), (H.MAX_TAIL, 3)]), min_size=1, max_size=6)
+        fields["tails"] = st.one_of(tails, tails, tails, st.none())
         return st.fixed_dictionaries(dict(items=long_lists(top, min_size=1, max_size=12, average=7), **fields))
 
     def run(self, case):
@@ -76,7 +83,7 @@ class Solicited(Sub):
                     b.add(dict(op=it["kind"], ep=it["ep"], ack=0, addr=addr, x=None))
                 continue
             b.item(it)
-        run = H.execute("full", b.prog, **G.env_of(case))
+        run = H.execute("full", b.prog, tails=case.get("tails"), **G.env_of(case))
         diverged = False
         if run.violation is not None:
             v = run.violation
@@ -111,6 +118,8 @@ class Solicited(Sub):
                 labels.add("absent-endpoint-side-silent")
         if any(it["k"] == "other" for it in case["items"]):
             labels.add("traffic-to-another-device-address")
+        if case.get("tails") and max(case["tails"]) >= 3:
+            labels.add("rx_active-tail>=3")
         stall = 0 in case["txr"]
         if stall:
             labels.add("tx_ready-wait-states")
